@@ -6,6 +6,7 @@ import (
 	"path/filepath"
 	"sort"
 	"strings"
+	"time"
 
 	"kvassverif/internal/core"
 )
@@ -49,7 +50,9 @@ type Outcome struct {
 	IndependentHandovers int
 	Err                  string
 	FaultsApplied        int
-	NotEnoughShards      int // fitting targets left unscraped in the final state because max-shard is reached and no shard has room
+	Removals             int      // shards removed by the coordinator
+	RemovalViol          []string // removed although it cannot have been idle for max-idle-time (C07)
+	NotEnoughShards      int      // fitting targets left unscraped in the final state because max-shard is reached and no shard has room
 }
 
 func fits(w *World, id int) bool {
@@ -379,6 +382,19 @@ func Run(sc Scenario, root string, rseed int64) *Outcome {
 				}
 			}
 		}
+		// removal monitor (C07): a shard the coordinator removes must have been idle for longer than max-idle-time;
+		// judged one-sidedly with the harness clock: it was seen holding targets (or was created) at IdleFloor,
+		// so it has been idle for at most At-IdleFloor - machine load only makes that span longer
+		for _, rm := range w.TakeRemovals() {
+			out.Removals++
+			maxIdle := idleDur(w.Spec.Idle)
+			switch {
+			case maxIdle == 0:
+				out.RemovalViol = append(out.RemovalViol, fmt.Sprintf("%s %d: shard %d removed although scale-down is disabled (max-idle-time 0)", label, c, rm.Ordinal))
+			case rm.At.Sub(rm.IdleFloor) <= maxIdle:
+				out.RemovalViol = append(out.RemovalViol, fmt.Sprintf("%s %d: shard %d removed %v after it was last seen holding targets (or created); max-idle-time is %v", label, c, rm.Ordinal, rm.At.Sub(rm.IdleFloor), maxIdle))
+			}
+		}
 		final := w.Snapshot()
 		note("%s%d scales=%v n=%d sync=%v %s", label, c, co.Scales, co.N, co.AllSync, final)
 		return co, final, true
@@ -399,6 +415,9 @@ func Run(sc Scenario, root string, rseed int64) *Outcome {
 			case "remove":
 				w.RemoveTarget(ev.Target.ID)
 				note("  workload: target %d removed", ev.Target.ID)
+			case "sleep":
+				time.Sleep(time.Duration(ev.Cycles) * time.Millisecond)
+				note("  workload: %d ms pass", ev.Cycles)
 			default:
 				if msg := w.Fault(ev.Kind, ev.Shard, ev.Cycles); msg == "" {
 					out.FaultsApplied++
